@@ -23,7 +23,7 @@ ASSUMPTIONS = ["dyadic penalties", "KwikSort made repeatable only for the compar
 
 
 def budget(tier):
-    return 250 if tier == "quick" else 5000
+    return 700 if tier == "quick" else 7000
 
 
 def gen(rng, index, tier):
